@@ -12,9 +12,9 @@
      layout                        structures located by the model's decoders in the current file
      fields                        the field tables of file header and node header
      witness NAME                  the witness files of AdfWalk.v (valid oobw oobr cycle linkrec biglink abort tagscan stale
-                                   dct neglink hugelink toklink longfile longpath nosep fmtneg dtov rtype dim sizes)
-     cfg BITS                      which repairs the modelled code contains: 15 characters 0/1 in the order of the record
-                                   AdfCodec.fixes (snt dct link nest fmt tag dtov rtype dim short sizes rad lfile lpath lnosep); default = all 0
+                                   dct neglink hugelink toklink longfile longpath nosep ver fmtneg dtov rtype dim sizes)
+     cfg BITS                      which repairs the modelled code contains: 16 characters 0/1 in the order of the record
+                                   AdfCodec.fixes (snt dct link nest fmt tag dtov rtype dim short sizes rad lfile lpath lnosep ver); default = all 0
      enc dp B O | enc hex N V | enc snt EB EO name:b:o;... | enc dct EB EO sb:so:eb:eo;... | enc data EB EO HEX
                                    encoders, with the open attributes of the current file      -> e HEXBYTES *)
 open Model
@@ -53,6 +53,7 @@ let print_ev (e:ev) = match e with
   | EvM r -> Printf.printf "M %s\n" (out_str (fun l -> Printf.sprintf "%d %s" (List.length l) (String.concat "," (List.map hb l))) r)
   | EvI r -> Printf.printf "I %s\n" (out_str (fun l -> if l = [] then "-" else String.concat "," (List.map pp l)) r)
   | EvG r -> Printf.printf "G %s\n" (out_str pp r)
+  | EvVer r -> Printf.printf "VER %s\n" (out_str hb r)
   | EvFuel -> print_string "FUEL\n"
 
 let cfg = ref legacy
@@ -60,7 +61,7 @@ let set_cfg (b:string) =
   let g i = String.length b > i && b.[i] = '1' in
   cfg := { fx_snt = g 0; fx_dct = g 1; fx_link = g 2; fx_nest = g 3; fx_fmt = g 4; fx_tag = g 5; fx_dtov = g 6;
            fx_rtype = g 7; fx_dim = g 8; fx_short = g 9; fx_sizes = g 10; fx_rad = g 11;
-           fx_lfile = g 12; fx_lpath = g 13; fx_lnosep = g 14 }
+           fx_lfile = g 12; fx_lpath = g 13; fx_lnosep = g 14; fx_ver = g 15 }
 
 let do_walk fuel (bs:z list) =
   (match walk !cfg (nat_of_int fuel) bs with
@@ -157,7 +158,7 @@ let run () =
       let w = (match nm with "valid" -> wit_valid | "oobw" -> wit_oobw | "oobr" -> wit_oobr | "cycle" -> wit_cycle
                            | "linkrec" -> wit_linkrec | "biglink" -> wit_biglink | "abort" -> wit_abort
                            | "tagscan" -> wit_tagscan | "stale" -> wit_stale | "dct" -> wit_dct | "neglink" -> wit_neglink
-                           | "hugelink" -> wit_hugelink | "longfile" -> wit_longfile | "longpath" -> wit_longpath | "nosep" -> wit_nosep | "toklink" -> wit_toklink | "fmtneg" -> wit_fmtneg | "dtov" -> wit_dtov
+                           | "hugelink" -> wit_hugelink | "longfile" -> wit_longfile | "longpath" -> wit_longpath | "nosep" -> wit_nosep | "ver" -> wit_ver | "toklink" -> wit_toklink | "fmtneg" -> wit_fmtneg | "dtov" -> wit_dtov
                            | "rtype" -> wit_rtype | "dim" -> wit_dim | "sizes" -> wit_sizes | "radset" -> wit_radset | "radneg" -> wit_radneg | _ -> []) in
       Printf.printf "w %s\n" (hb w)
     | ["attr"] -> let a = attr () in Printf.printf "a old=%d fmt=%d os=%d\n" (if a.fa_old then 1 else 0) (int_of_z a.fa_fmt) (int_of_z a.fa_os)
